@@ -156,6 +156,15 @@ def _collection(variant, tracks, build="fresh"):
         if cut.size() != len(tracks[2]):
             raise RuntimeError("harness: the extracted span has %d fixes" % cut.size())
         return TrackCollection([_track(variant, tracks[0], 0), _feat(base, variant, tracks[1]), _feat(cut, variant, tracks[2])])
+    if build == "ranks":
+        # the second track already carried another feature when it got 'v': 'v' sits at another rank there than in the others
+        out = []
+        for k, f in enumerate(tracks):
+            t = _bare(variant, f, k)
+            if k == 1:
+                t.createAnalyticalFeature("h", 99.0)
+            out.append(_feat(t, variant, f))
+        return TrackCollection(out)
     if build == "loop":
         base = _bare(variant, tracks[1][:-1], 1)
         base.loop(add=True)
@@ -633,6 +642,7 @@ def run_shard(shard, ctx):
         for margin in MARGINS:
             for a, b, c in itertools.product(vals, repeat=3):
                 ctx.case(bool(check_summ(v, [diag, [(p[0], p[1], a), (q[0], q[1], b), (p[0], p[1], c)]], res, margin, ctx, "listed", "loop")))
+                ctx.case(bool(check_summ(v, [diag, [(p[0], p[1], a), (q[0], q[1], b)], [(p[0], p[1], c)]], res, margin, ctx, "listed", "ranks")))
                 for d in vals:
                     ctx.case(bool(check_summ(v, [diag, [(p[0], p[1], a), (q[0], q[1], b)], [(p[0], p[1], c), (q[0], q[1], d)]],
                                              res, margin, ctx, "reversed" if a != a else "listed", "span")))
